@@ -20,6 +20,9 @@ ST_TEXT = ("Store.tla is a file-system state machine (path -> configuration, con
   "(overwrites, two suffixes of one stem), checking ReallyCompressed and ReadAfterWrite on the model; behaviours are replayed in a temp directory and StoreTrace "
   "judges file existence, compression magic, column names/order, cells, dtype kinds, restriction = read-all-then-select, alias = method. ")
 CHECKS = {
+ "C20": dict(engine="Render",
+   text="Render.tla has two layers: layout predicates over a parsed rendering (every name shown, every dtype label, min(nrow, max_rows) data rows per block, equal display width within a block, total stated exactly when rows are cut, zero columns -> empty string, no exception, object unchanged) and RenderMech, a transcription of to_string's column-batching loop, which TLC checks against the predicates for every width vector in the bound (each column in exactly one block, termination when a single column exceeds max_width). TLC's layouts are replayed with strings of exactly those display widths (narrow, CJK-wide, combining characters); seeded arbitrary DataFrames / Vectors / ListOfDicts / GeoJSON objects go through str / repr / to_string / print_ with random options and PRINT_* settings; the parsed output is judged by the RenderTrace monitor (mechanism disagreement is a NOTE only).",
+   design="§3 C20", technique="TLA+ layout predicates + mechanism model (Render) checked by TLC + replay of enumerated layouts + monitor-style validation of parsed renderings"),
  "C19": dict(engine="Lift",
    text="Calendar.tla is an integer model of the proleptic Gregorian calendar (ordinal <-> civil date, weekday, ISO week, quarter) whose laws are model-checked by TLC (round trip, weekday succession, week number changes only on Mondays, Jan 4 in week 1, Dec 28 in the last week); Lift.tla states the lifting discipline (missing out exactly where missing in, element function elsewhere, proxy = module function, scalar = one-element vector, from_string inverts to_string). LiftMC enumerates every missing-value mask; the 11 extractors are judged against the Calendar model and Python's datetime on an edge-date palette over units D/s/ms/us, replace / to_string / from_string / 7 re functions / str proxies against Python's own datetime / re per element; judged by the LiftTrace monitor.",
    design="§3 C19", technique="TLA+ calendar model + lifting spec (TLC-checked laws, mask enumeration) + monitor-style trace validation"),
@@ -77,6 +80,7 @@ CHECKS = {
    design="§3 C11", technique="TLA+ spec (VectorOps) + TLC exhaustive enumeration + monitor-style trace validation of real calls"),
 }
 ENGINES = [
+ dict(name="Render", path="spec/Render.tla", serves_properties=["C20"], kind_free_text="TLA+ layout predicates + RenderMech + RenderMC + RenderTrace"),
  dict(name="Lift", path="spec/Lift.tla", serves_properties=["C19"], kind_free_text="TLA+ Calendar + Lift + CalendarMC/LiftMC + LiftTrace"),
  dict(name="GeoJSON", path="spec/GeoJSON.tla", serves_properties=["C18"], kind_free_text="TLA+ read/write laws + GeoJSONMC + GeoJSONTrace"),
  dict(name="Convert", path="spec/Convert.tla", serves_properties=["C13"], kind_free_text="TLA+ boundary contract + ConvertMC + ConvertTrace"),
